@@ -5,13 +5,13 @@
    Besides replaying the component model the driver evaluates, per session, the property monitor and the plain
    statements on the projected trace and cross-checks them against the theorems' predictions for the repaired
    variant (MODELBUG if the extracted code disagrees with what is proved). *)
-(* variants: "repaired" = v111, "head" = v000; v<s><o><l>: fix_sent, fix_order, fix_l2stop on top of /repo HEAD;
+(* variants: "repaired" = v111 (/repo HEAD + ordered delivery), "head" = v101 = /repo HEAD; v<s><o><l>: fix_sent, fix_order, fix_l2stop;
    "defective" = the code as first found *)
 let variant_of name =
   let mk s o l = { fix_counters = true; fix_stop = true; fix_active = true; fix_sent = s; fix_order = o; fix_l2stop = l } in
   match name with
   | "repaired" | "" -> mk true true true
-  | "head" -> mk false false false
+  | "head" -> mk true false true            (* /repo HEAD *)
   | "defective" -> { fix_counters = false; fix_stop = false; fix_active = false; fix_sent = false; fix_order = false; fix_l2stop = false }
   | s when String.length s = 4 && s.[0] = 'v' -> mk (s.[1] = '1') (s.[2] = '1') (s.[3] = '1')
   | s -> failwith ("unknown variant " ^ s)
@@ -68,6 +68,10 @@ let run_case v line =
     let arrived = Array.make k [] in     (* per session: reversed list of calls ARRIVED at the provider *)
     let held = Array.make k [] in        (* per session: calls issued but delayed (oldest first) *)
     let hold_start = ref false in
+    let hold_int = ref false in          (* Accounting-Responses of Interims are being held back *)
+    let any_held_int = ref false in
+    let pending_resp = Array.make k [] in   (* per session: outcomes (ok?) of the Interims still unanswered, oldest first *)
+    let flight_valid = Array.make k false in  (* the unanswered Interim's session object is still the cached one *)
     let racy = ref false in
     let nops = List.length ops in
     let step_one ev =
@@ -112,24 +116,46 @@ let run_case v line =
         let ev = match String.split_on_char ',' op with
           | "A" :: i :: rest -> ann (fun j x h -> GActive (j, x, h)) i rest
           | "R" :: i :: rest -> ann (fun j x h -> GRestored (j, x, h)) i rest
-          | ["X"; i; sn] -> if uint i >= k then raise Bad; GReleased (nat_of_int (uint i), parse_snap sn)
-          | ["T"; b; m; sn] -> GTick (n_of_int (uint b), nat_list_of_mask (uint m) 0 k, parse_snap sn)
-          | ["B"] -> GRestart
+          | ["X"; i; sn] -> if uint i >= k then raise Bad; flight_valid.(uint i) <- false;
+            GReleased (nat_of_int (uint i), parse_snap sn)
+          | ["T"; b; m; sn] ->
+            (* while responses are held every Interim of this tick is "sent, no response yet" *)
+            GTick (n_of_int (uint b), (if !hold_int then nat_list_of_mask ((1 lsl k) - 1) 0 k else nat_list_of_mask (uint m) 0 k),
+                   parse_snap sn)
+          | ["B"] -> Array.fill flight_valid 0 k false; GRestart
           | ["P"; p] -> GPrune (p = "1")
           | ["H"; _] | ["U"] -> GPrune false       (* placeholder, handled below *)
           | _ -> raise Bad in
         match String.split_on_char ',' op with
-        | ["H"; "S"] -> hold_start := true; "[]"
-        | ["H"; "-"] -> hold_start := false; "[]"
+        | ["H"; "S"] -> hold_start := true; hold_int := false; "[]"
+        | ["H"; "I"] -> hold_start := false; hold_int := true; "[]"
+        | ["H"; "SI"] -> hold_start := true; hold_int := true; "[]"
+        | ["H"; "-"] -> hold_start := false; hold_int := false; "[]"
         | ["H"; _] -> raise Bad
         | ["U"] ->
-          (* the delayed calls are let through, session by session, oldest first *)
+          (* session by session: the delayed Starts arrive (oldest first), then the held responses are delivered:
+             K = acknowledged, F = failed.  An acknowledgement acts on the session object the Interim was computed on;
+             if that object was released meanwhile it has no effect on the stream *)
           let toks = List.concat (List.mapi (fun j _ ->
               let l = held.(j) in
               held.(j) <- [];
               arrived.(j) <- List.rev_append l arrived.(j);
-              List.map (show_out j) l) ss) in
+              let rs = pending_resp.(j) in
+              pending_resp.(j) <- [];
+              let rt = List.map (fun ok ->
+                  if ok && flight_valid.(j) then ignore (step_one (GAck (nat_of_int j)));
+                  Printf.sprintf "%s%d" (if ok then "K" else "F") j) rs in
+              flight_valid.(j) <- false;
+              List.map (show_out j) l @ rt) ss) in
           "[" ^ String.concat " " toks ^ "]"
+        | "T" :: _ :: m :: _ when !hold_int ->
+          any_held_int := true;
+          let mask = uint m in
+          let toks = step_one ev in
+          List.iter (fun (j, _) -> pending_resp.(j) <- pending_resp.(j) @ [mask land (1 lsl j) = 0]; flight_valid.(j) <- true) toks;
+          let held_tok t = if String.length t > 2 && String.sub t (String.length t - 2) 2 = ":f"
+            then String.sub t 0 (String.length t - 1) ^ "h" else t in
+          "[" ^ String.concat " " (List.map (fun (_, t) -> held_tok t) toks) ^ "]"
         | _ -> "[" ^ String.concat " " (List.map snd (step_one ev)) ^ "]" end) ops in
     let dump = List.mapi (fun j s ->
         let p = Printf.sprintf "s%d=b%d" j (if s.inb then 1 else 0) in
@@ -154,15 +180,12 @@ let run_case v line =
         (* cross-check of the extracted code against what is proved for the repaired variant *)
         let (_, t') = lrun v gj sst0 evs in
         let bug = t' <> t ||
-                  (v = variant_of "repaired" &&
+                  ((v = variant_of "repaired" || v = variant_of "head") &&
                    ((not wraps && not (accepted true t)) || not stp || (np && not wraps && not (ibrk && imono && isnt))
-                    || (np && not wraps && never_restored evs && not (iord && ord && snt)))) ||
-                  (v = variant_of "head" &&
-                   ((not wraps && not (accepted false t)) || not stp || (np && not wraps && not (ibrk && imono))
-                    || (np && not wraps && all_acked evs && not isnt)
-                    || (np && not wraps && never_restored evs && not iord))) in
+                    || (np && not wraps && never_restored evs && not iord))) ||
+                  (v = variant_of "repaired" && np && not wraps && (not snt || (never_restored evs && not ord))) in
         Printf.sprintf "v%d=%s%s%s%s%s%s" j (b brk) (b stp) (b mono) (b snt) (b ord) (if bug then "MODELBUG" else "")) ss in
-    String.concat " " groups ^ " ; " ^ (if !racy then "racy" else String.concat " " dump) ^ " ; " ^ String.concat " " verdicts
+    String.concat " " groups ^ " ; " ^ (if !racy then "racy" else if !any_held_int then "held" else String.concat " " dump) ^ " ; " ^ String.concat " " verdicts
   | _ -> raise Bad
 
 (* wire part:  W <S|I|E>,<in-octets>,<out-octets>,<in-packets>,<out-packets> ... *)
